@@ -43,18 +43,18 @@ CONTRACT(PRE___yday_get_md(year, doy), POST___yday_get_md(RV, year, doy));
 
 /* 28-year table + 400-year equivalence classes: weekday of Jan 1st */
 #define PRE___get_jan01_wday(year) ((year) >= 1601 && (year) <= 4096)
-#define POST___get_jan01_wday(ret, year) ((int)(ret) == S_WDAY(S_JAN00((int)(year)) + 1))
+#define POST___get_jan01_wday(ret, year) ((int)(ret) == S_J01WD((int)(year)))
 static inline dt_dow_t __get_jan01_wday(unsigned int year)
 CONTRACT(PRE___get_jan01_wday(year), POST___get_jan01_wday(RV, year));
 
 #define PRE___get_m01_wday(year, mon) ((year) >= 1601 && (year) <= 4096)
 #define POST___get_m01_wday(ret, year, mon) \
-	(((mon) >= 1 && (mon) <= 12) ? (int)(ret) == S_WDAY(S_DAISY((int)(year), (int)(mon), 1)) : (ret) == DT_MIRACLEDAY)
+	(((mon) >= 1 && (mon) <= 12) ? (int)(ret) == S_M01WD((int)(year), (int)(mon)) : (ret) == DT_MIRACLEDAY)
 static dt_dow_t __get_m01_wday(unsigned int year, unsigned int mon)
 CONTRACT(PRE___get_m01_wday(year, mon), POST___get_m01_wday(RV, year, mon));
 
 #define PRE___get_dom_wday(year, mon, dom) ((year) >= 1601 && (year) <= 4096 && (mon) >= 1 && (mon) <= 12 && (dom) >= 1 && (dom) <= 63)
-#define POST___get_dom_wday(ret, year, mon, dom) ((int)(ret) == S_WDAY(S_DAISY((int)(year), (int)(mon), (int)(dom))))
+#define POST___get_dom_wday(ret, year, mon, dom) ((int)(ret) == S_WDAY_YMD((int)(year), (int)(mon), (int)(dom)))
 static dt_dow_t __get_dom_wday(unsigned int year, unsigned int mon, unsigned int dom)
 CONTRACT(PRE___get_dom_wday(year, mon, dom), POST___get_dom_wday(RV, year, mon, dom));
 
@@ -65,7 +65,7 @@ CONTRACT(PRE___get_dom_wday(year, mon, dom), POST___get_dom_wday(RV, year, mon, 
 static inline dt_dow_t __get_jan01_yday_dow(unsigned int yd, dt_dow_t w)
 CONTRACT(PRE___get_jan01_yday_dow(yd, w), POST___get_jan01_yday_dow(RV, yd, w));
 
-#define PRE___jan00_daisy(year) ((year) >= 1601 && (year) <= 4096)
+#define PRE___jan00_daisy(year) ((year) >= 1601 && (year) <= 4200)
 #define POST___jan00_daisy(ret, year) ((ret) == (dt_daisy_t)S_JAN00((int)(year)))
 static inline dt_daisy_t __jan00_daisy(unsigned int year)
 CONTRACT(PRE___jan00_daisy(year), POST___jan00_daisy(RV, year));
@@ -81,12 +81,6 @@ CONTRACT(PRE___daisy_get_wday(d), POST___daisy_get_wday(RV, d));
 static unsigned int __daisy_get_year(dt_daisy_t d)
 CONTRACT(PRE___daisy_get_year(d), POST___daisy_get_year(RV, d));
 
-#define PRE___daisy_get_yday(d) ((d) >= 1 && (d) <= S_MAX_DAISY)
-#define POST___daisy_get_yday(ret, d) \
-	((ret) >= 1 && (ret) <= 366 && S_daisy_year((int)(d)) >= 0 && (int)(ret) == (int)(d) - S_JAN00(S_daisy_year((int)(d))))
-static unsigned int __daisy_get_yday(dt_daisy_t d)
-CONTRACT(PRE___daisy_get_yday(d), POST___daisy_get_yday(RV, d));
-
 /* Neri-Schneider both ways */
 #define PRE___ymd_to_daisy(d) (V_YEAR((d).y) && (d).m >= 1 && (d).m <= 12 && (d).d >= 1 && (d).d <= 31)
 #define POST___ymd_to_daisy(ret, d) ((ret) == (dt_daisy_t)S_DAISY((int)(d).y, (int)(d).m, (int)(d).d))
@@ -97,5 +91,335 @@ CONTRACT(PRE___ymd_to_daisy(d), POST___ymd_to_daisy(RV, d));
 #define POST___daisy_to_ymd(ret, n) (R_ymd_of((int)(n), (ret).y, (ret).m, (ret).d) && ((ret).u >> 22) == 0)
 dt_ymd_t __daisy_to_ymd(dt_daisy_t that)
 CONTRACT(PRE___daisy_to_ymd(that), POST___daisy_to_ymd(RV, that));
+
+
+/* ============================================================ C01: getters and converters */
+#include "../spec/abs.h"
+
+/* ---- ymd.c getters */
+#define PRE___ymd_get_yday(t) (((t).y == 0 || (t).m == 0 || (t).m > 12) || 1)
+#define POST___ymd_get_yday(ret, t) \
+	(((t).y == 0 || (t).m == 0 || (t).m > 12) ? (ret) == 0 : (ret) == (unsigned)S_YDAY((int)(t).y, (int)(t).m, (int)(t).d))
+static unsigned int __ymd_get_yday(dt_ymd_t that)
+CONTRACT(PRE___ymd_get_yday(that), POST___ymd_get_yday(RV, that));
+
+#define PRE___ymd_get_wday(t) (L_YMD(t))
+#define POST___ymd_get_wday(ret, t) ((int)(ret) == S_WDAY_YMD((int)(t).y, (int)(t).m, (int)(t).d))
+static dt_dow_t __ymd_get_wday(dt_ymd_t that)
+CONTRACT(PRE___ymd_get_wday(that), POST___ymd_get_wday(RV, that));
+
+#define PRE___ymd_get_count(t) ((t).d >= 1)
+#define POST___ymd_get_count(ret, t) ((ret) == ((t).d - 1u) / 7u + 1u)
+unsigned int __ymd_get_count(dt_ymd_t that)
+CONTRACT(PRE___ymd_get_count(that), POST___ymd_get_count(RV, that));
+
+#define PRE___ymd_to_ymcw(d) (V_YMD(d))
+#define POST___ymd_to_ymcw(ret, d) (V_YMCW(ret) && (ret).y == (d).y && (ret).m == (d).m && SAME(YMCW, ret, YMD, d))
+static dt_ymcw_t __ymd_to_ymcw(dt_ymd_t d)
+CONTRACT(PRE___ymd_to_ymcw(d), POST___ymd_to_ymcw(RV, d));
+
+#define PRE___ymd_to_ywd(d) (V_YMD(d))
+#define POST___ymd_to_ywd(ret, d) (V_YWD(ret) && SAME(YWD, ret, YMD, d))
+static dt_ywd_t __ymd_to_ywd(dt_ymd_t d)
+CONTRACT(PRE___ymd_to_ywd(d), POST___ymd_to_ywd(RV, d));
+
+#define PRE___ymd_to_yd(d) (V_YMD(d))
+#define POST___ymd_to_yd(ret, d) (V_YD(ret) && (ret).y == (d).y && SAME(YD, ret, YMD, d))
+static dt_yd_t __ymd_to_yd(dt_ymd_t d)
+CONTRACT(PRE___ymd_to_yd(d), POST___ymd_to_yd(RV, d));
+
+/* ---- yd.c getters / converters */
+#define PRE___yd_get_wday(t) (V_YD(t))
+#define POST___yd_get_wday(ret, t) ((int)(ret) == S_WDAY_YD((int)(t).y, (int)(t).d))
+static dt_dow_t __yd_get_wday(dt_yd_t this)
+CONTRACT(PRE___yd_get_wday(this), POST___yd_get_wday(RV, this));
+
+#define PRE___yd_get_md(t) (V_YD(t))
+#define POST___yd_get_md(ret, t) (V_ymd((int)(t).y, (int)(ret).m, (int)(ret).d) && S_YDAY((int)(t).y, (int)(ret).m, (int)(ret).d) == (int)(t).d)
+static struct __md_s __yd_get_md(dt_yd_t this)
+CONTRACT(PRE___yd_get_md(this), POST___yd_get_md(RV, this));
+
+#define PRE___yd_to_ymd(d) (V_YD(d))
+#define POST___yd_to_ymd(ret, d) (V_YMD(ret) && (ret).y == (d).y && SAME(YMD, ret, YD, d))
+static dt_ymd_t __yd_to_ymd(dt_yd_t d)
+CONTRACT(PRE___yd_to_ymd(d), POST___yd_to_ymd(RV, d));
+
+#define PRE___yd_to_daisy(d) (V_YD(d))
+#define POST___yd_to_daisy(ret, d) ((int)(ret) == A_YD(d))
+static dt_daisy_t __yd_to_daisy(dt_yd_t d)
+CONTRACT(PRE___yd_to_daisy(d), POST___yd_to_daisy(RV, d));
+
+#define PRE___yd_to_ymcw(d) (V_YD(d))
+#define POST___yd_to_ymcw(ret, d) (V_YMCW(ret) && (ret).y == (d).y && SAME(YMCW, ret, YD, d))
+static dt_ymcw_t __yd_to_ymcw(dt_yd_t d)
+CONTRACT(PRE___yd_to_ymcw(d), POST___yd_to_ymcw(RV, d));
+
+#define PRE___yd_to_ywd(d) (V_YD(d))
+#define POST___yd_to_ywd(ret, d) (V_YWD(ret) && SAME(YWD, ret, YD, d))
+static dt_ywd_t __yd_to_ywd(dt_yd_t d)
+CONTRACT(PRE___yd_to_ywd(d), POST___yd_to_ywd(RV, d));
+
+/* week counts of a (year, yday) */
+#define PRE___yd_get_wcnt_abs(d) ((d).d >= 1)
+#define POST___yd_get_wcnt_abs(ret, d) ((ret) == S_wcnt_abs((int)(d).d))
+int __yd_get_wcnt_abs(dt_yd_t d)
+CONTRACT(PRE___yd_get_wcnt_abs(d), POST___yd_get_wcnt_abs(RV, d));
+
+#define PRE___yd_get_wcnt_iso(d) (V_YD(d))
+/* the ISO week number of (y, yd): there is an ISO year Y in {y-1, y, y+1} such that (Y, ret, wd) is valid and denotes the same (year, yday) */
+#define WCNT_ISO_IN(Y, ret, d) \
+	((Y) >= 1601 && (Y) <= 4096 && (ret) <= S_ISOWEEKS(Y) && \
+	 S_ywd_gyear((Y), (ret), S_WDAY_YD((int)(d).y, (int)(d).d)) == (int)(d).y && \
+	 S_ywd_gyd((Y), (ret), S_WDAY_YD((int)(d).y, (int)(d).d)) == (int)(d).d)
+#define POST___yd_get_wcnt_iso(ret, d) \
+	((ret) >= 1 && (ret) <= 53 && (WCNT_ISO_IN((int)(d).y, ret, d) || WCNT_ISO_IN((int)(d).y - 1, ret, d) || WCNT_ISO_IN((int)(d).y + 1, ret, d)))
+int __yd_get_wcnt_iso(dt_yd_t d)
+CONTRACT(PRE___yd_get_wcnt_iso(d), POST___yd_get_wcnt_iso(RV, d));
+
+#define PRE___yd_get_wcnt(d, w1) (V_YD(d) && ((w1) == DT_SUNDAY || (w1) == DT_MONDAY))
+#define POST___yd_get_wcnt(ret, d, w1) \
+	((ret) == ((w1) == DT_SUNDAY ? S_wcnt_sun((int)(d).y, (int)(d).d) : S_wcnt_mon((int)(d).y, (int)(d).d)))
+int __yd_get_wcnt(dt_yd_t d, dt_dow_t _1st_wd)
+CONTRACT(PRE___yd_get_wcnt(d, _1st_wd), POST___yd_get_wcnt(RV, d, _1st_wd));
+
+/* ---- ymcw.c */
+#define PRE___get_mcnt(y, m, w) (V_YEAR((int)(y)) && (m) >= 1 && (m) <= 12 && (w) >= 1 && (w) <= 7)
+#define POST___get_mcnt(ret, y, m, w) ((int)(ret) == S_mcnt((int)(y), (int)(m), (int)(w)))
+static unsigned int __get_mcnt(unsigned int y, unsigned int m, dt_dow_t w)
+CONTRACT(PRE___get_mcnt(y, m, w), POST___get_mcnt(RV, y, m, w));
+
+#define PRE___ymcw_get_mday(t) (V_YMCW(t))
+#define POST___ymcw_get_mday(ret, t) ((int)(ret) == S_ymcw_mday((int)(t).y, (int)(t).m, (int)(t).c, (int)(t).w))
+static unsigned int __ymcw_get_mday(dt_ymcw_t that)
+CONTRACT(PRE___ymcw_get_mday(that), POST___ymcw_get_mday(RV, that));
+
+/* n-th occurrence of that weekday within the year */
+#define PRE___ymcw_get_yday(t) (V_YMCW(t))
+#define POST___ymcw_get_yday(ret, t) ((int)(ret) == (GYD_YMCW(t) - 1) / 7 + 1)
+unsigned int __ymcw_get_yday(dt_ymcw_t that)
+CONTRACT(PRE___ymcw_get_yday(that), POST___ymcw_get_yday(RV, that));
+
+#define PRE___ymcw_to_ymd(d) (V_YMCW(d))
+#define POST___ymcw_to_ymd(ret, d) (V_YMD(ret) && (ret).y == (d).y && (ret).m == (d).m && SAME(YMD, ret, YMCW, d))
+static dt_ymd_t __ymcw_to_ymd(dt_ymcw_t d)
+CONTRACT(PRE___ymcw_to_ymd(d), POST___ymcw_to_ymd(RV, d));
+
+#define PRE___ymcw_to_daisy(d) (V_YMCW(d))
+#define POST___ymcw_to_daisy(ret, d) ((int)(ret) == A_YMCW(d))
+static dt_daisy_t __ymcw_to_daisy(dt_ymcw_t d)
+CONTRACT(PRE___ymcw_to_daisy(d), POST___ymcw_to_daisy(RV, d));
+
+#define PRE___ymcw_to_yd(d) (V_YMCW(d))
+#define POST___ymcw_to_yd(ret, d) (V_YD(ret) && (ret).y == (d).y && SAME(YD, ret, YMCW, d))
+static dt_yd_t __ymcw_to_yd(dt_ymcw_t d)
+CONTRACT(PRE___ymcw_to_yd(d), POST___ymcw_to_yd(RV, d));
+
+#define PRE___ymcw_to_ywd(d) (V_YMCW(d))
+#define POST___ymcw_to_ywd(ret, d) (V_YWD(ret) && SAME(YWD, ret, YMCW, d))
+static dt_ywd_t __ymcw_to_ywd(dt_ymcw_t d)
+CONTRACT(PRE___ymcw_to_ywd(d), POST___ymcw_to_ywd(RV, d));
+
+/* ---- ywd.c */
+#define PRE___ywd_get_jan01_wday(d) ((d).hang >= -3 && (d).hang <= 3)
+#define POST___ywd_get_jan01_wday(ret, d) ((ret) >= 1 && (ret) <= 7 && (1 - (int)(ret) - (int)(d).hang) % 7 == 0)
+static dt_dow_t __ywd_get_jan01_wday(dt_ywd_t d)
+CONTRACT(PRE___ywd_get_jan01_wday(d), POST___ywd_get_jan01_wday(RV, d));
+
+#define PRE___ywd_get_jan01_hang(j01) ((j01) >= 1 && (j01) <= 7)
+#define POST___ywd_get_jan01_hang(ret, j01) ((ret) >= -3 && (ret) <= 3 && (1 - (int)(j01) - (ret)) % 7 == 0)
+static int __ywd_get_jan01_hang(dt_dow_t j01)
+CONTRACT(PRE___ywd_get_jan01_hang(j01), POST___ywd_get_jan01_hang(RV, j01));
+
+#define PRE___get_isowk(y) ((y) >= 1601 && (y) <= 4096)
+#define POST___get_isowk(ret, y) ((int)(ret) == S_ISOWEEKS((int)(y)))
+unsigned int __get_isowk(unsigned int y)
+CONTRACT(PRE___get_isowk(y), POST___get_isowk(RV, y));
+
+/* week number of Dec 31, weeks hanging over into the next year counted as 53 */
+#define PRE___get_z31wk(y) ((y) >= 1601 && (y) <= 4095)
+#define POST___get_z31wk(ret, y) \
+	((int)(ret) == (S_JAN00((int)(y) + 1) >= S_ISOMON1((int)(y) + 1) ? 53 : (S_JAN00((int)(y) + 1) - S_ISOMON1((int)(y))) / 7 + 1))
+static unsigned int __get_z31wk(unsigned int y)
+CONTRACT(PRE___get_z31wk(y), POST___get_z31wk(RV, y));
+
+/* build the ISO week date of the day (y, yd) whose weekday is dow */
+#define PRE___make_ywd_yd_dow(y, yd, dow) (V_yd((int)(y), (yd)) && (int)(dow) == S_WDAY_YD((int)(y), (yd)))
+#define POST___make_ywd_yd_dow(ret, y, yd, dow) \
+	(V_YWD(ret) && GY_YWD(ret) == (int)(y) && GYD_YWD(ret) == (yd))
+static dt_ywd_t __make_ywd_yd_dow(unsigned int y, int yd, dt_dow_t dow)
+CONTRACT(PRE___make_ywd_yd_dow(y, yd, dow), POST___make_ywd_yd_dow(RV, y, yd, dow));
+
+/* __make_ywd_c: c-th week under one of 4 conventions
+ *  ABS: the c-th occurrence of weekday w in year y        -> its ISO week date
+ *  ISO: year y, ISO week c                                 -> as is
+ *  SUN/MON: week c (0-based before the first Sunday/Monday)-> ISO-style count shifted */
+#define S_FIRST_OCC(y, w) (1 + (((int)(w) - S_J01WD((int)(y)) + 7) % 7))
+#define PRE___make_ywd_c_abs(y, c, w) \
+	(V_YEAR((int)(y)) && (w) >= 1 && (w) <= 7 && (c) >= 1 && (c) <= 53 && \
+	 7 * ((int)(c) - 1) + S_FIRST_OCC(y, w) <= S_YDAYS((int)(y)))
+#define PRE___make_ywd_c(y, c, w, cc) ((cc) == YWD_ABSWK_CNT ? PRE___make_ywd_c_abs(y, c, w) : \
+	(V_YEAR((int)(y)) && (w) >= 1 && (w) <= 7 && (c) <= 53))
+#define POST___make_ywd_c(ret, y, c, w, cc) \
+	((cc) == YWD_ABSWK_CNT ? (V_YWD(ret) && GY_YWD(ret) == (int)(y) && GYD_YWD(ret) == 7 * ((int)(c) - 1) + S_FIRST_OCC(y, w)) : \
+	 ((ret).y == (y) && (ret).w == (w) && (int)(ret).hang == S_HANG((int)(y)) && \
+	  (ret).c == (((cc) == YWD_SUNWK_CNT && S_J01WD((int)(y)) != 7) || ((cc) == YWD_MONWK_CNT && S_J01WD((int)(y)) != 1) ? (c) + 1 : (c))))
+static dt_ywd_t __make_ywd_c(unsigned int y, unsigned int c, dt_dow_t w, unsigned int cc)
+CONTRACT(PRE___make_ywd_c(y, c, w, cc), POST___make_ywd_c(RV, y, c, w, cc));
+
+#define PRE___ywd_get_yday(d) (V_YWD(d))
+#define POST___ywd_get_yday(ret, d) ((ret) == S_YWD_RAWYD((int)(d).y, (int)(d).c, (int)(d).w))
+static int __ywd_get_yday(dt_ywd_t d)
+CONTRACT(PRE___ywd_get_yday(d), POST___ywd_get_yday(RV, d));
+
+#define PRE___ywd_get_year(d) (V_YWD(d))
+#define POST___ywd_get_year(ret, d) ((int)(ret) == GY_YWD(d))
+static unsigned int __ywd_get_year(dt_ywd_t d)
+CONTRACT(PRE___ywd_get_year(d), POST___ywd_get_year(RV, d));
+
+#define PRE___ywd_get_md(d) (V_YWD(d))
+#define POST___ywd_get_md(ret, d) \
+	(V_ymd(GY_YWD(d), (int)(ret).m, (int)(ret).d) && S_YDAY(GY_YWD(d), (int)(ret).m, (int)(ret).d) == GYD_YWD(d))
+static struct __md_s __ywd_get_md(dt_ywd_t d)
+CONTRACT(PRE___ywd_get_md(d), POST___ywd_get_md(RV, d));
+
+#define PRE___ywd_to_ymd(d) (V_YWD(d))
+#define POST___ywd_to_ymd(ret, d) (V_YMD(ret) && SAME(YMD, ret, YWD, d))
+static dt_ymd_t __ywd_to_ymd(dt_ywd_t d)
+CONTRACT(PRE___ywd_to_ymd(d), POST___ywd_to_ymd(RV, d));
+
+#define PRE___ywd_to_ymcw(d) (V_YWD(d))
+#define POST___ywd_to_ymcw(ret, d) (V_YMCW(ret) && SAME(YMCW, ret, YWD, d))
+static dt_ymcw_t __ywd_to_ymcw(dt_ywd_t d)
+CONTRACT(PRE___ywd_to_ymcw(d), POST___ywd_to_ymcw(RV, d));
+
+#define PRE___ywd_to_daisy(d) (V_YWD(d))
+#define POST___ywd_to_daisy(ret, d) ((int)(ret) == A_YWD(d))
+static dt_daisy_t __ywd_to_daisy(dt_ywd_t d)
+CONTRACT(PRE___ywd_to_daisy(d), POST___ywd_to_daisy(RV, d));
+
+#define PRE___ywd_to_yd(d) (V_YWD(d))
+#define POST___ywd_to_yd(ret, d) (V_YD(ret) && SAME(YD, ret, YWD, d))
+static dt_yd_t __ywd_to_yd(dt_ywd_t d)
+CONTRACT(PRE___ywd_to_yd(d), POST___ywd_to_yd(RV, d));
+
+/* ---- daisy.c converters */
+#define PRE___daisy_to_ymcw(n) ((n) >= 1 && (n) <= S_MAX_DAISY)
+#define POST___daisy_to_ymcw(ret, n) (V_YMCW(ret) && A_YMCW(ret) == (int)(n))
+static dt_ymcw_t __daisy_to_ymcw(dt_daisy_t that)
+CONTRACT(PRE___daisy_to_ymcw(that), POST___daisy_to_ymcw(RV, that));
+
+#define PRE___daisy_to_ywd(n) ((n) >= 1 && (n) <= S_MAX_DAISY)
+#define POST___daisy_to_ywd(ret, n) (V_YWD(ret) && A_YWD(ret) == (int)(n))
+static dt_ywd_t __daisy_to_ywd(dt_daisy_t that)
+CONTRACT(PRE___daisy_to_ywd(that), POST___daisy_to_ywd(RV, that));
+
+#define PRE___daisy_to_yd(n) ((n) >= 1 && (n) <= S_MAX_DAISY)
+#define POST___daisy_to_yd(ret, n) (V_YD(ret) && A_YD(ret) == (int)(n))
+static dt_yd_t __daisy_to_yd(dt_daisy_t d)
+CONTRACT(PRE___daisy_to_yd(d), POST___daisy_to_yd(RV, d));
+
+#define PRE___daisy_to_ldn(d) ((d) <= S_MAX_DAISY)
+#define POST___daisy_to_ldn(ret, d) ((ret) == (d) + S_LDN_BASE)
+static dt_ldn_t __daisy_to_ldn(dt_daisy_t d)
+CONTRACT(PRE___daisy_to_ldn(d), POST___daisy_to_ldn(RV, d));
+#define PRE___daisy_to_mdn(d) ((d) <= S_MAX_DAISY)
+#define POST___daisy_to_mdn(ret, d) ((ret) == (d) + S_MDN_BASE)
+static dt_mdn_t __daisy_to_mdn(dt_daisy_t d)
+CONTRACT(PRE___daisy_to_mdn(d), POST___daisy_to_mdn(RV, d));
+#define PRE___ldn_to_daisy(d) (1)
+#define POST___ldn_to_daisy(ret, d) ((ret) == (((d) > S_LDN_BASE && (d) <= 0x7fffffffu + S_LDN_BASE) ? (d) - S_LDN_BASE : 0u))
+static dt_daisy_t __ldn_to_daisy(dt_ldn_t d)
+CONTRACT(PRE___ldn_to_daisy(d), POST___ldn_to_daisy(RV, d));
+#define PRE___mdn_to_daisy(d) (1)
+#define POST___mdn_to_daisy(ret, d) ((ret) == (((d) > S_MDN_BASE && (d) <= 0x7fffffffu + S_MDN_BASE) ? (d) - S_MDN_BASE : 0u))
+static dt_daisy_t __mdn_to_daisy(dt_mdn_t d)
+CONTRACT(PRE___mdn_to_daisy(d), POST___mdn_to_daisy(RV, d));
+/* julian day numbers are floats: exact in the supported range (values < 2^22 with .5) */
+#define PRE___daisy_to_jdn(d) ((d) <= S_MAX_DAISY)
+#define POST___daisy_to_jdn(ret, d) ((double)(ret) == (double)(d) + 2305812.5)
+static dt_jdn_t __daisy_to_jdn(dt_daisy_t d)
+CONTRACT(PRE___daisy_to_jdn(d), POST___daisy_to_jdn(RV, d));
+#define PRE___jdn_to_daisy(d) ((d) >= 0.0f && (d) <= 4000000.0f)
+#define POST___jdn_to_daisy(ret, d) \
+	(((double)(d) - 2305812.5 > 0.0) ? ((double)(ret) <= (double)(d) - 2305812.5 && (double)(d) - 2305812.5 < (double)(ret) + 1.0) : (ret) == 0)
+static dt_daisy_t __jdn_to_daisy(dt_jdn_t d)
+CONTRACT(PRE___jdn_to_daisy(d), POST___jdn_to_daisy(RV, d));
+
+/* ---- calls that must be unreachable under a caller's precondition: a requires(false) contract.
+ * Replacing a call by it makes CBMC prove the call site unreachable; nothing is assumed. */
+#define UNREACH_CONTRACT VERIF_CONTRACT(__CPROVER_requires(0) __CPROVER_ensures(1) __CPROVER_assigns())
+dt_daisy_t UNREACH___bizda_to_daisy(dt_bizda_t d, dt_bizda_param_t p) UNREACH_CONTRACT;
+dt_ymd_t UNREACH___bizda_to_ymd(dt_bizda_t d) UNREACH_CONTRACT;
+dt_ymcw_t UNREACH___bizda_to_ymcw(dt_bizda_t d, dt_bizda_param_t p) UNREACH_CONTRACT;
+dt_ywd_t UNREACH___bizda_to_ywd(dt_bizda_t d, dt_bizda_param_t p) UNREACH_CONTRACT;
+dt_ldn_t UNREACH___ummulqura_to_ldn(dt_ummulqura_t d) UNREACH_CONTRACT;
+dt_ummulqura_t UNREACH___ldn_to_ummulqura(dt_ldn_t d) UNREACH_CONTRACT;
+dt_daisy_t UNREACH___jdn_to_daisy(dt_jdn_t d) UNREACH_CONTRACT;
+dt_jdn_t UNREACH___daisy_to_jdn(dt_daisy_t d) UNREACH_CONTRACT;
+dt_bizda_t UNREACH___bizda_fixup(dt_bizda_t d) UNREACH_CONTRACT;
+dt_ummulqura_t UNREACH___ummulqura_fixup(dt_ummulqura_t d) UNREACH_CONTRACT;
+dt_bizda_t UNREACH_dt_conv_to_bizda(struct dt_d_s that) UNREACH_CONTRACT;
+dt_ummulqura_t UNREACH_dt_conv_to_ummulqura(struct dt_d_s this) UNREACH_CONTRACT;
+
+/* ---- dispatchers in date-core.c */
+#define PRE_dt_dfixup(d) (V_d(d))
+#define POST_dt_dfixup_valid(ret, d) (!V_d(d) || ((ret).u == (d).u && (ret).typ == (d).typ && (ret).param == (d).param && (ret).fix == (d).fix && (ret).neg == (d).neg))
+struct dt_d_s dt_dfixup(struct dt_d_s d)
+VERIF_CONTRACT(__CPROVER_requires(PRE_dt_dfixup(d)) __CPROVER_ensures(POST_dt_dfixup_valid(RV, d)) __CPROVER_assigns());
+#define POST_dt_dfixup(ret, d) POST_dt_dfixup_valid(ret, d)
+
+#define PRE_dt_conv_to_daisy(t) (V_d(t))
+#define POST_dt_conv_to_daisy(ret, t) ((int)(ret) == A_d(t))
+dt_daisy_t dt_conv_to_daisy(struct dt_d_s that)
+CONTRACT(PRE_dt_conv_to_daisy(that), POST_dt_conv_to_daisy(RV, that));
+#define PRE_dt_conv_to_ymd(t) (V_d(t))
+#define POST_dt_conv_to_ymd(ret, t) (V_YMD(ret) && SAME_T_D(YMD, ret, t))
+static dt_ymd_t dt_conv_to_ymd(struct dt_d_s that)
+CONTRACT(PRE_dt_conv_to_ymd(that), POST_dt_conv_to_ymd(RV, that));
+#define PRE_dt_conv_to_ymcw(t) (V_d(t))
+#define POST_dt_conv_to_ymcw(ret, t) (V_YMCW(ret) && SAME_T_D(YMCW, ret, t))
+static dt_ymcw_t dt_conv_to_ymcw(struct dt_d_s that)
+CONTRACT(PRE_dt_conv_to_ymcw(that), POST_dt_conv_to_ymcw(RV, that));
+#define PRE_dt_conv_to_ywd(t) (V_d(t))
+#define POST_dt_conv_to_ywd(ret, t) (V_YWD(ret) && SAME_T_D(YWD, ret, t))
+static dt_ywd_t dt_conv_to_ywd(struct dt_d_s this)
+CONTRACT(PRE_dt_conv_to_ywd(this), POST_dt_conv_to_ywd(RV, this));
+#define PRE_dt_conv_to_yd(t) (V_d(t))
+#define POST_dt_conv_to_yd(ret, t) (V_YD(ret) && SAME_T_D(YD, ret, t))
+static dt_yd_t dt_conv_to_yd(struct dt_d_s this)
+CONTRACT(PRE_dt_conv_to_yd(this), POST_dt_conv_to_yd(RV, this));
+
+#define V_TGT(t) ((t) == DT_YMD || (t) == DT_YMCW || (t) == DT_YWD || (t) == DT_YD || (t) == DT_DAISY || (t) == DT_LDN || (t) == DT_MDN)
+#define PRE_dt_dconv(tgt, d) (V_d(d) && V_TGT(tgt))
+/* for day-number targets the range of the result follows from SAME_d and spec lemma L_range (valid civil values denote days 1..911280) */
+#define POST_dt_dconv(ret, tgt, d) ((ret).typ == (tgt) && (!CIVIL_T(tgt) || V_d(ret)) && SAME_d(ret, d))
+struct dt_d_s dt_dconv(dt_dtyp_t tgttyp, struct dt_d_s d)
+CONTRACT(PRE_dt_dconv(tgttyp, d), POST_dt_dconv(RV, tgttyp, d));
+
+/* getters on the sum type: value == field of the civil date of A(d), whatever the representation */
+#define PRE_dt_get_wday(t) (V_d(t) && ((t).typ == DT_YMD || (t).typ == DT_YMCW || (t).typ == DT_DAISY || (t).typ == DT_YWD))
+#define POST_dt_get_wday(ret, t) ((int)(ret) == W_d(t))
+dt_dow_t dt_get_wday(struct dt_d_s that)
+CONTRACT(PRE_dt_get_wday(that), POST_dt_get_wday(RV, that));
+/* civil field getters: for civil values in terms of the (GY, GYD) pair, for day numbers via the year of the day number */
+#define Y_OF(t) ((t).typ == DT_DAISY ? S_daisy_year(A_d(t)) : GY_d(t))
+#define YD_OF(t) ((t).typ == DT_DAISY ? A_d(t) - S_JAN00(S_daisy_year(A_d(t))) : GYD_d(t))
+#define PRE_dt_get_year(t) (V_d(t) && ((t).typ == DT_YMD || (t).typ == DT_YMCW || (t).typ == DT_DAISY))
+#define POST_dt_get_year(ret, t) ((ret) == Y_OF(t))
+int dt_get_year(struct dt_d_s that)
+CONTRACT(PRE_dt_get_year(that), POST_dt_get_year(RV, that));
+#define PRE_dt_get_mon(t) (V_d(t) && ((t).typ == DT_YMD || (t).typ == DT_YMCW || (t).typ == DT_DAISY || (t).typ == DT_YWD))
+#define POST_dt_get_mon(ret, t) ((ret) == S_mon_of_yday(Y_OF(t), YD_OF(t)))
+int dt_get_mon(struct dt_d_s that)
+CONTRACT(PRE_dt_get_mon(that), POST_dt_get_mon(RV, that));
+#define PRE_dt_get_mday(t) (V_d(t) && ((t).typ == DT_YMD || (t).typ == DT_YMCW || (t).typ == DT_DAISY))
+#define POST_dt_get_mday(ret, t) ((ret) == S_mday_of_yday(Y_OF(t), YD_OF(t)))
+int dt_get_mday(struct dt_d_s that)
+CONTRACT(PRE_dt_get_mday(that), POST_dt_get_mday(RV, that));
+/* dt_get_yday: documented as day-of-year for ymd/daisy; for ywd it is the raw ISO yday (may be <1 / >ydays) */
+#define PRE_dt_get_yday(t) (V_d(t) && ((t).typ == DT_YMD || (t).typ == DT_DAISY || (t).typ == DT_YWD))
+#define POST_dt_get_yday(ret, t) ((t).typ == DT_YWD ? ((int)(ret) == S_YWD_RAWYD((int)(t).ywd.y, (int)(t).ywd.c, (int)(t).ywd.w)) : ((int)(ret) == YD_OF(t)))
+unsigned int dt_get_yday(struct dt_d_s that)
+CONTRACT(PRE_dt_get_yday(that), POST_dt_get_yday(RV, that));
 
 #endif
